@@ -122,9 +122,14 @@ def make_pool():
     P["mask8"] = numpy.kron(P["mask4"], numpy.ones((2, 2), dtype=int))
     P["mask2"] = numpy.array([[1, 1], [0, 1]])
     P["slopes"] = numpy.arange(2 * 2 * 12, dtype=float).reshape(2, 2, 12)
+    P["slopes_c128"] = P["slopes"] + 1j * P["slopes"][::-1] * 0.5          # x + i y slopes in one record
     P["subap_pos"] = numpy.array([[0., 0.], [2., 2.], [4., 2.]])
     P["tps"] = numpy.cos(numpy.arange(8)[:, None] * (numpy.arange(4)[None, :] + 1) * 0.7) + 0.1
     P["tps_stack"] = numpy.array([P["tps"], P["tps"] * 2 + 1])
+    P["tps_c128"] = P["tps"] + 0.5j * P["tps"][::-1]                       # x + i y slopes in one complex record
+    P["tps_c64"] = P["tps_c128"].astype(numpy.complex64)
+    P["tps_f32"] = P["tps"].astype(numpy.float32)
+    P["tps_i64"] = numpy.round(P["tps"] * 100).astype(numpy.int64)
     P["cn2"] = numpy.array([5e-15, 2e-15, 1e-15, 3e-15, 1e-15])
     P["h"] = numpy.array([0., 2000., 5000., 9000., 15000.])
     P["w"] = numpy.array([5., 10., 20., 30., 15.])
@@ -420,6 +425,8 @@ def recipes():
     # ---- temporal power spectra
     add("calc_slope_temporalps", A + "turbulence.temporal_ps.calc_slope_temporalps", lambda P: tp.calc_slope_temporalps(P["tps"]))
     add("calc_slope_temporalps:stack", A + "turbulence.temporal_ps.calc_slope_temporalps", lambda P: tp.calc_slope_temporalps(P["tps_stack"]))
+    for arr in ("tps_c128", "tps_c64", "tps_f32", "tps_i64"):
+        add("calc_slope_temporalps:" + arr, A + "turbulence.temporal_ps.calc_slope_temporalps", lambda P, a=arr: tp.calc_slope_temporalps(P[a]))
     add("get_tps_time_axis", A + "turbulence.temporal_ps.get_tps_time_axis", lambda P: tp.get_tps_time_axis(100., 8))
     # ---- wfs
     add("findActiveSubaps", A + "wfs.wfslib.findActiveSubaps", lambda P: wfslib.findActiveSubaps(4, P["mask8"], 0.6))
@@ -673,8 +680,20 @@ def _call(fn, P, scribble=True):
         return None, "%s: %s" % (type(e).__name__, str(e)[:300])
 
 
+def _edit_pool(P):
+    """the caller edits its own arrays in place between two calls: every writeable array of the pool is reversed
+    along all its axes (values stay in the domain of every recipe: masks stay 0/1, covariances stay symmetric
+    positive definite)"""
+    seen = set()
+    for a in _pool_arrays(P):
+        if a.flags.writeable and a.size and id(a) not in seen:
+            seen.add(id(a))
+            a[...] = a[tuple(slice(None, None, -1) for _ in a.shape)].copy()
+
+
 def _single(rid):
-    """phase 1 body (runs in a pristine child)"""
+    """phase 1 body (runs in a pristine child): call; call again while the first result is still held; scribble over
+    both results; call a third time; the caller edits its arguments in place; call a fourth time"""
     rec = {r[0]: r for r in recipes()}[rid]
     _, _, fn, flags = rec
     mods = aotools_modules()
@@ -682,6 +701,7 @@ def _single(rid):
     pre = pool_state(P, mods)
     d1 = e1 = None
     aliased = 0
+    held_ok = True
     try:
         r1 = fn(P)
         d1 = _result_digest(r1)
@@ -689,15 +709,42 @@ def _single(rid):
         e1 = "%s: %s" % (type(e).__name__, str(e)[:300])
     post = pool_state(P, mods)
     if e1 is None:
+        # a result the caller still holds is not touched by a later call (no shared scratch buffer handed out)
+        try:
+            rb = fn(P)
+            held_ok = _result_digest(r1) == d1
+            _scribble(rb, P)
+        except Exception:
+            pass
         aliased = _scribble(r1, P)     # after the state comparison: garbage into every non-aliasing result array
     mid = pool_state(P, mods)
     d2, e2 = _call(fn, P)
     post2 = pool_state(P, mods)
     scribble_leak = [c for c in ss.changed(post, mid) if c.startswith("pool:")]
     ign = {"numpy.global_rng"} if flags.get("uses_global_rng") else set()
+    # the caller edits its arrays in place; the next result must be the one a pristine process gives for the
+    # edited values (_edited_reference), i.e. nothing was remembered under the identity of the argument objects
+    P = make_pool() if any(c.startswith("pool:") for c in ss.changed(pre, post2)) else P
+    if P is not None:
+        _call(fn, P)
+        _edit_pool(P)
+        d4, e4 = _call(fn, P, scribble=False)
     return {"d1": d1, "e1": e1, "d2": d2, "e2": e2, "aliased": aliased, "scribble_leak": scribble_leak,
+            "held_ok": held_ok, "d4": d4, "e4": e4,
             "changed": [c for c in ss.changed(pre, post) if c not in ign],
             "changed2": [c for c in ss.changed(mid, post2) if c not in ign]}
+
+
+def _edited_reference(rids):
+    """what each recipe gives on a freshly made, then edited pool (one process for a group of recipes; each recipe
+    gets its own new pool objects)"""
+    recs = {r[0]: r for r in recipes()}
+    out = {}
+    for rid in rids:
+        P = make_pool()
+        _edit_pool(P)
+        out[rid] = _call(recs[rid][2], P, scribble=False)
+    return out
 
 
 def _chains(a_ids, alphabet_ids, pristine):
@@ -743,6 +790,10 @@ def setup(tier):
     assert len(set(ids)) == len(ids), "duplicate recipe ids"
     from mc.isolate import isolated_map
     _PRISTINE = dict(zip(ids, isolated_map(_single, [(rid,) for rid in ids], jobs=16)))
+    groups = [ids[k::16] for k in range(16)]
+    for part in isolated_map(_edited_reference, [(g,) for g in groups], jobs=16):
+        for rid, (d, e) in part.items():
+            _PRISTINE[rid]["d4_ref"], _PRISTINE[rid]["e4_ref"] = d, e
 
 
 def cases(tier):
@@ -807,6 +858,11 @@ def evaluate(p):
         o.check("harness_scribble_stays_out_of_pool", not r["scribble_leak"], sub=rid, detail=r["scribble_leak"])
         # the repeated call: equal arguments -> equal result (judged on its own only if the
         # arguments really were equal, i.e. the first call did not modify them)
+        o.check("held_result_not_overwritten_by_next_call", r["held_ok"], sub=rid)
+        if "d4_ref" in r:
+            same = (r["d4"] == r["d4_ref"]) and ((r["e4"] is None) == (r["e4_ref"] is None))
+            o.check("result_follows_callers_in_place_edit", same, sub=rid,
+                    detail=None if same else {"after_edit": r["e4"] or r["d4"], "pristine_on_edited_values": r["e4_ref"] or r["d4_ref"]})
         if not args_changed:
             o.check("repeated_call_equal_result", r["d1"] == r["d2"] and r["e2"] is None, sub=rid, detail=r["e2"])
             o.check("second_call_is_self_loop", not r["changed2"], sub=rid, detail=r["changed2"])
@@ -978,7 +1034,7 @@ def _batch(o, name):
     if name.startswith("4d:"):
         f = BATCH4[name[3:]]
         stacks = []
-        for (a, b) in ((2, 2), (1, 3), (3, 1), (2, 4), (4, 2)):     # incl. sub-aperture count == image width
+        for (a, b) in ((2, 2), (1, 3), (3, 1), (2, 4), (4, 2), (30, 25)):     # incl. sub-aperture count == image width; 750 items
             idx = [(3 * i + 5 * j + i * j) % len(fr) for i in range(a) for j in range(b)]
             stacks.append(("lead=%dx%d" % (a, b), numpy.array([fr[t] * (1 + 0.5 * k) for k, t in enumerate(idx)]
                                                               ).reshape((a, b) + fr[0].shape)))
@@ -986,6 +1042,10 @@ def _batch(o, name):
         f = BATCH[name]
         stacks = [("frames=" + "".join(map(str, tup)), numpy.array([fr[t] for t in tup]))
                   for depth in (1, 2, 3) for tup in itertools.product(range(len(fr)), repeat=depth)]
+        # long batches (every item different): block-wise implementations start somewhere above a few hundred items
+        for nfr in (130, 513, 700, 1025):
+            stacks.append(("frames=long%d" % nfr,
+                           numpy.array([numpy.roll(fr[k % 4], k % 3, (k // 3) % 2) * (1.0 + 0.01 * k) + (k % 7) * 0.25 for k in range(nfr)])))
     return _batch_run(o, f, stacks)
 
 
